@@ -32,9 +32,17 @@ SEEDS = {
  'C12-C': ('imap', './imap', 'TestDemoC_'), 'C12-D': ('imap', './imap', 'TestDemoD_'),
  'C14-A': ('tests', './tests', 'TestDemoC14A'), 'C14-B': ('tests', './tests', 'TestDemoC14B'),
  'C20-C': ('tests', './tests', 'TestDemoC20C'), 'C20-D': ('tests', './tests', 'TestDemoC20D'),
+ 'C01-C': ('tests', './tests', 'TestDemoIdleDone'), 'C01-D': ('internal/response', './internal/response', 'TestDemoMerge'),
+ 'C01-E': ('internal/state', './internal/state', 'TestDemoForeignFlagChange'), 'C05-D': ('tests', './tests', 'TestDemoCheck'),
+ 'C05-E': ('tests', './tests', 'TestDemoUIDSearch'),
+ 'C03-D': ('tests', './tests', 'TestDemoA_'), 'C03-E': ('tests', './tests', 'TestDemoB_'), 'C13-E': ('rfc822', './rfc822', 'TestDemoC_'),
+ 'C17-C': ('limits', './limits', 'TestDemoD_'), 'C06-C': ('tests', './tests', 'TestDemoE_'),
+ 'C10-D': ('imap/command', './imap/command', 'TestMutA_'), 'C10-E': ('imap/command', './imap/command', 'TestMutB_'),
+ 'C10-F': ('imap/command', './imap/command', 'TestMutC_'), 'C16-C': ('internal/state', './internal/state', 'TestMutD_'),
+ 'C16-D': ('tests', './tests', 'TestMutE_'),
 }
 # demo files that belong to another package than the main demo (skipped in the confirmation run)
-SKIP = {'C01-A': ['c01_uid_range_seq_test.go'], 'C16-A': ['zz_demo_a_wire_test.go'], 'C16-B': ['zz_demo_b_wire_test.go'], 'C05-A': ['c05_mutA_readd_demo_test.go']}
+SKIP = {'C01-D': ['demo_merge_expunge_wire_test.go'], 'C01-E': ['demo_silent_store_wire_test.go'], 'C13-E': ['demo_c_fetch_empty_part_test.go'], 'C17-C': ['demo_d_message_limit_test.go'], 'C01-A': ['c01_uid_range_seq_test.go'], 'C16-A': ['zz_demo_a_wire_test.go'], 'C16-B': ['zz_demo_b_wire_test.go'], 'C05-A': ['c05_mutA_readd_demo_test.go']}
 
 def sh(cmd, timeout=900, cwd=WT):
     try:
